@@ -250,4 +250,278 @@ private def jar2 : List (Bytes × Bytes) := [([108, 97, 110, 103], [0xE6, 0x97, 
 example : JarOK flds jar2 := ⟨by intro nv h; simp [jar2] at h; rcases h with rfl | rfl <;> decide, by intro nv h; simp [jar2] at h; rcases h with rfl | rfl <;> decide,
   by intro nv h; simp [jar2] at h; rcases h with rfl | rfl <;> rfl, by decide⟩
 
+/-! ### typed cookies: numbers, booleans and `Option` fields beside text
+
+The statement above takes every cookie as a `String` field.  Here the jar holds values of the field types a cookie struct may declare,
+each written by the client in the text form of its type (`Enc`): text percent-encoded, integers in decimal, booleans as `true` / `false`,
+an `Option` as the text of what it holds. -/
+
+/-- a value text that needs no quoting or escaping reads back as what it decodes to -/
+theorem value_roundtrip_raw (enc v rest : Bytes) (hclean : ∀ b ∈ enc, badValueByte b = false ∧ b ≠ SEMI ∧ b ≠ DQ)
+    (hdec : Percent.decode enc = v) (hv : Http.validUtf8 v = true) (hr : rest = [] ∨ rest.head? = some SEMI) :
+    ∃ borrowed, nextValue (enc ++ rest) = (some (v, borrowed), rest) := by
+  have hsq : stripQuotes enc = enc := stripQuotes_clean _ (fun b hb => (hclean b hb).2.2)
+  have hany : enc.any badValueByte = false := by
+    rw [List.any_eq_false]; intro b hb; simp [(hclean b hb).1]
+  have hvv : validValue enc = some (v, v == enc) := by
+    unfold validValue
+    simp only [hsq, hany, Bool.false_eq_true, if_false, hdec, hv, if_true]
+  rcases hr with rfl | hh
+  · refine ⟨v == enc, ?_⟩
+    unfold nextValue
+    rw [List.append_nil, position_none_of_all _ _ (fun b hb => by simpa using (hclean b hb).2.1)]
+    simp only [hvv]
+  · cases rest with
+    | nil => simp at hh
+    | cons c t =>
+      simp only [List.head?_cons, Option.some.injEq] at hh
+      subst hh
+      refine ⟨v == enc, ?_⟩
+      unfold nextValue
+      rw [position_append _ _ SEMI t (fun b hb => by simpa using (hclean b hb).2.1) (by decide)]
+      simp only [List.take_left', List.drop_left', hvv]
+
+theorem digit_clean (b : UInt8) (h : IsDigit b) : badValueByte b = false ∧ b ≠ SEMI ∧ b ≠ DQ := by
+  have : ∀ x : UInt8, (48 ≤ x && x ≤ 57) = true → badValueByte x = false ∧ x ≠ SEMI ∧ x ≠ DQ := u8_cases _ (by decide +kernel)
+  exact this b h.1
+
+/-- a decimal number is a clean, non-empty value text -/
+theorem show_clean (z : Int) : showInt z ≠ [] ∧ ∀ b ∈ showInt z, badValueByte b = false ∧ b ≠ SEMI ∧ b ≠ DQ := by
+  cases z with
+  | ofNat n =>
+    obtain ⟨ds, he, hne, hdig, _⟩ := natDigits_spec (n + 1) n [] (by omega)
+    simp only [showInt, he, List.append_nil]
+    exact ⟨hne, fun b hb => digit_clean b (hdig b hb)⟩
+  | negSucc n =>
+    obtain ⟨ds, he, _, hdig, _⟩ := natDigits_spec (n + 2) (n + 1) [] (by omega)
+    simp only [showInt, he, List.append_nil]
+    refine ⟨by simp, fun b hb => ?_⟩
+    rcases List.mem_cons.mp hb with rfl | hb'
+    · decide
+    · exact digit_clean b (hdig b hb')
+
+/-- the text a client sends for a value of a field type -/
+inductive Enc : Ty → Value → Bytes → Prop
+  | string (v : Bytes) : Http.validUtf8 v = true → Enc .string (.str v) (Percent.encode v)
+  | uint (bits : Nat) (z : Int) : 0 ≤ z → z < 2 ^ bits → Enc (.uint bits) (.int z) (showInt z)
+  | sint (bits : Nat) (z : Int) : -(2 ^ (bits - 1) : Int) ≤ z → z < 2 ^ (bits - 1) → Enc (.sint bits) (.int z) (showInt z)
+  | btrue : Enc .bool (.bool true) Serde.TRUE
+  | bfalse : Enc .bool (.bool false) Serde.FALSE
+  | some (t : Ty) (v : Value) (enc : Bytes) : Enc t v enc → enc ≠ [] → Enc (.option t) (.some v) enc
+
+def optDepth : Ty → Nat
+  | .option t => optDepth t + 1
+  | _ => 0
+
+theorem enc_head_not_semi {ty : Ty} {v : Value} {enc : Bytes} (h : Enc ty v enc) : enc.head? ≠ some SEMI := by
+  induction h with
+  | string v _ =>
+    intro hh
+    cases he : Percent.encode v with
+    | nil => rw [he] at hh; simp at hh
+    | cons b t =>
+      rw [he] at hh; simp at hh
+      exact (encoded_value_clean v b (by rw [he]; simp)).2.1 hh
+  | uint bits z _ _ =>
+    intro hh
+    cases he : showInt z with
+    | nil => rw [he] at hh; simp at hh
+    | cons b t => rw [he] at hh; simp at hh; exact ((show_clean z).2 b (by rw [he]; simp)).2.1 hh
+  | sint bits z _ _ =>
+    intro hh
+    cases he : showInt z with
+    | nil => rw [he] at hh; simp at hh
+    | cons b t => rw [he] at hh; simp at hh; exact ((show_clean z).2 b (by rw [he]; simp)).2.1 hh
+  | btrue => decide
+  | bfalse => decide
+  | some t v enc _ _ ih => exact ih
+
+/-- **One typed value survives the trip**: the text of a value of a field type, alone at the end of the header or followed by `; more`, is
+read by the field's decoder as exactly that value, and the rest of the header is left for the next cookie -/
+theorem field_roundtrip {ty : Ty} {v : Value} {enc : Bytes} (h : Enc ty v enc) :
+    ∀ (fuel : Nat) (rest : Bytes), optDepth ty < fuel → (rest = [] ∨ rest.head? = some SEMI) →
+      fieldValue fuel ty (enc ++ rest) = .ok (v, rest) := by
+  induction h with
+  | string v hv =>
+    intro fuel rest hf hr
+    obtain ⟨f, rfl⟩ : ∃ f, fuel = f + 1 := ⟨fuel - 1, by omega⟩
+    obtain ⟨bw, hval⟩ := value_roundtrip_pct v rest hv hr
+    simp only [fieldValue, hval]
+  | uint bits z h0 h1 =>
+    intro fuel rest hf hr
+    obtain ⟨f, rfl⟩ : ∃ f, fuel = f + 1 := ⟨fuel - 1, by omega⟩
+    obtain ⟨bw, hval⟩ := value_roundtrip_raw (showInt z) (showInt z) rest (show_clean z).2 (show_noPct z) (show_utf8 z) hr
+    simp only [fieldValue, hval, parse_show_U bits z h0 h1]
+  | sint bits z h0 h1 =>
+    intro fuel rest hf hr
+    obtain ⟨f, rfl⟩ : ∃ f, fuel = f + 1 := ⟨fuel - 1, by omega⟩
+    obtain ⟨bw, hval⟩ := value_roundtrip_raw (showInt z) (showInt z) rest (show_clean z).2 (show_noPct z) (show_utf8 z) hr
+    simp only [fieldValue, hval, parse_show_S bits z h0 h1]
+  | btrue =>
+    intro fuel rest hf hr
+    obtain ⟨f, rfl⟩ : ∃ f, fuel = f + 1 := ⟨fuel - 1, by omega⟩
+    obtain ⟨bw, hval⟩ := value_roundtrip_raw Serde.TRUE Serde.TRUE rest (by decide) (decode_noPct _ (by decide)) (by decide) hr
+    simp only [fieldValue, hval, if_true]
+  | bfalse =>
+    intro fuel rest hf hr
+    obtain ⟨f, rfl⟩ : ∃ f, fuel = f + 1 := ⟨fuel - 1, by omega⟩
+    obtain ⟨bw, hval⟩ := value_roundtrip_raw Serde.FALSE Serde.FALSE rest (by decide) (decode_noPct _ (by decide)) (by decide) hr
+    have hne : Serde.FALSE ≠ Serde.TRUE := by decide
+    simp only [fieldValue, hval, hne, if_false, if_true]
+  | some t v enc he hne ih =>
+    intro fuel rest hf hr
+    obtain ⟨f, rfl⟩ : ∃ f, fuel = f + 1 := ⟨fuel - 1, by omega⟩
+    have hf' : optDepth t < f := by simp only [optDepth] at hf; omega
+    have hnone : isNone (enc ++ rest) = false := by
+      cases henc : enc with
+      | nil => exact absurd henc hne
+      | cons b tl =>
+        have := enc_head_not_semi he
+        rw [henc] at this
+        simp only [List.head?_cons, ne_eq, Option.some.injEq] at this
+        simp [isNone, this]
+    simp only [fieldValue, hnone, Bool.false_eq_true, if_false, ih f rest hf' hr]
+
+/-- a typed jar: name, declared type, value, and the text the client sends for it -/
+abbrev TJar := List (Bytes × Ty × Value × Bytes)
+
+def tailEncT : TJar → Bytes
+  | [] => []
+  | (n, _, _, enc) :: rest => [SEMI, SP] ++ (n ++ EQ :: (enc ++ tailEncT rest))
+
+def encodeJarT : TJar → Bytes
+  | [] => []
+  | (n, _, _, enc) :: rest => n ++ EQ :: (enc ++ tailEncT rest)
+
+theorem tailEncT_head (jar : TJar) : tailEncT jar = [] ∨ (tailEncT jar).head? = some SEMI := by
+  cases jar with
+  | nil => left; rfl
+  | cons p rest => obtain ⟨n, t, v, e⟩ := p; right; rfl
+
+def asFieldT (c : Bytes × Ty × Value × Bytes) : Bytes × Value := (c.1, c.2.2.1)
+
+structure TJarOK (fields : List (Bytes × Ty × Bool)) (jar : TJar) : Prop where
+  names_token : ∀ c ∈ jar, c.1 ≠ [] ∧ ∀ b ∈ c.1, badNameByte b = false
+  encoded : ∀ c ∈ jar, Enc c.2.1 c.2.2.1 c.2.2.2 ∧ optDepth c.2.1 < 8
+  declared : ∀ c ∈ jar, lookupField fields c.1 = some c.2.1
+  distinct : (jar.map (·.1)).Nodup
+
+theorem pairs_stepT (fields : List (Bytes × Ty × Bool)) (fuel : Nat) (n : Bytes) (ty : Ty) (v : Value) (enc : Bytes) (rest : TJar)
+    (seen : List (Bytes × Value)) (hn : n ≠ [] ∧ ∀ b ∈ n, badNameByte b = false) (he : Enc ty v enc) (hdp : optDepth ty < 8)
+    (hd : lookupField fields n = some ty) (hs : seen.find? (·.1 = n) = none) (first : Bool) :
+    pairs fields (fuel + 1) first ((if first then [] else [SEMI, SP]) ++ (n ++ EQ :: (enc ++ tailEncT rest))) seen =
+      pairs fields fuel false (tailEncT rest) (seen ++ [(n, v)]) := by
+  obtain ⟨b0, n', hn0⟩ : ∃ b0 n', n = b0 :: n' := by
+    cases n with
+    | nil => exact absurd rfl hn.1
+    | cons a t => exact ⟨a, t, rfl⟩
+  have hname := name_roundtrip n (enc ++ tailEncT rest) hn.1 hn.2
+  have hfv : fieldValue 8 ty (enc ++ tailEncT rest) = .ok (v, tailEncT rest) := field_roundtrip he 8 _ hdp (tailEncT_head rest)
+  conv => lhs; unfold pairs
+  cases first with
+  | true =>
+    simp only [if_true, List.nil_append]
+    have hne : (n ++ EQ :: (enc ++ tailEncT rest)).isEmpty = false := by rw [hn0]; rfl
+    simp only [hne, Bool.false_eq_true, if_false, hname, bne_self_eq_false, hd, hs, Option.isSome_none, hfv]
+  | false =>
+    simp only [Bool.false_eq_true, if_false]
+    have hne : ([SEMI, SP] ++ (n ++ EQ :: (enc ++ tailEncT rest))).isEmpty = false := rfl
+    simp only [Bool.false_eq_true, if_false, List.cons_append, List.nil_append, beq_self_eq_true, Bool.and_self, if_true, hname,
+      bne_self_eq_false, hd, hs, Option.isSome_none, hfv]
+    rfl
+
+theorem TJarOK.tail {fields : List (Bytes × Ty × Bool)} {c : Bytes × Ty × Value × Bytes} {rest : TJar} (hok : TJarOK fields (c :: rest)) :
+    TJarOK fields rest ∧ c.1 ∉ rest.map (·.1) := by
+  have hnd := hok.distinct
+  simp only [List.map_cons, List.nodup_cons] at hnd
+  exact ⟨⟨fun x hx => hok.names_token x (List.mem_cons_of_mem _ hx), fun x hx => hok.encoded x (List.mem_cons_of_mem _ hx),
+    fun x hx => hok.declared x (List.mem_cons_of_mem _ hx), hnd.2⟩, hnd.1⟩
+
+theorem pairs_tailT (fields : List (Bytes × Ty × Bool)) : ∀ (jar : TJar) (seen : List (Bytes × Value)) (fuel : Nat),
+    TJarOK fields jar → (∀ c ∈ jar, seen.find? (·.1 = c.1) = none) → jar.length < fuel →
+    pairs fields fuel false (tailEncT jar) seen = .ok (seen ++ jar.map asFieldT) := by
+  intro jar
+  induction jar with
+  | nil =>
+    intro seen fuel _ _ hf
+    cases fuel with
+    | zero => simp at hf
+    | succ f => simp [pairs, tailEncT]
+  | cons p rest ih =>
+    intro seen fuel hok hseen hf
+    obtain ⟨n, ty, v, enc⟩ := p
+    cases fuel with
+    | zero => simp at hf
+    | succ f =>
+      have hn := hok.names_token _ (List.mem_cons_self ..)
+      have he := hok.encoded _ (List.mem_cons_self ..)
+      have hd := hok.declared _ (List.mem_cons_self ..)
+      have hs := hseen _ (List.mem_cons_self ..)
+      have step := pairs_stepT fields f n ty v enc rest seen hn he.1 he.2 hd hs false
+      simp only [Bool.false_eq_true, if_false] at step
+      have : tailEncT ((n, ty, v, enc) :: rest) = [SEMI, SP] ++ (n ++ EQ :: (enc ++ tailEncT rest)) := rfl
+      rw [this, step]
+      obtain ⟨hok', hnot⟩ := hok.tail
+      have hseen' : ∀ c ∈ rest, (seen ++ [(n, v)]).find? (·.1 = c.1) = none := by
+        intro c hc
+        apply find_none_append _ _ _ _ (hseen c (List.mem_cons_of_mem _ hc))
+        intro heq
+        exact hnot (by rw [heq]; exact List.mem_map.mpr ⟨c, hc, rfl⟩)
+      rw [ih (seen ++ [(n, v)]) f hok' hseen' (by simp at hf; omega)]
+      simp [asFieldT]
+
+/-- **The whole typed jar survives the trip.**  For every jar of cookies with distinct token names, each declared with a field type (text,
+unsigned / signed integers of any width, bool, `Option` of those to any depth the decoder follows) and holding a value of that type written
+in the type's text form, the header a client sends is read by the struct decoder's pair loop into exactly those values, in order. -/
+theorem typed_jar_roundtrip (fields : List (Bytes × Ty × Bool)) (jar : TJar) (hok : TJarOK fields jar) :
+    pairs fields ((encodeJarT jar).length + 2) true (encodeJarT jar) [] = .ok (jar.map asFieldT) := by
+  cases jar with
+  | nil => simp [pairs, encodeJarT]
+  | cons p rest =>
+    obtain ⟨n, ty, v, enc⟩ := p
+    have hn := hok.names_token _ (List.mem_cons_self ..)
+    have he := hok.encoded _ (List.mem_cons_self ..)
+    have hd := hok.declared _ (List.mem_cons_self ..)
+    have step := pairs_stepT fields ((n ++ EQ :: (enc ++ tailEncT rest)).length + 1) n ty v enc rest [] hn he.1 he.2 hd rfl true
+    simp only [if_true, List.nil_append] at step
+    have : encodeJarT ((n, ty, v, enc) :: rest) = n ++ EQ :: (enc ++ tailEncT rest) := rfl
+    rw [this, show (n ++ EQ :: (enc ++ tailEncT rest)).length + 2 = ((n ++ EQ :: (enc ++ tailEncT rest)).length + 1) + 1 from rfl, step]
+    obtain ⟨hok', hnot⟩ := hok.tail
+    have hseen' : ∀ c ∈ rest, ([(n, v)] : List (Bytes × Value)).find? (·.1 = c.1) = none := by
+      intro c hc
+      have hne : n ≠ c.1 := fun heq => hnot (by rw [heq]; exact List.mem_map.mpr ⟨c, hc, rfl⟩)
+      simp [hne]
+    have hlen : rest.length < (n ++ EQ :: (enc ++ tailEncT rest)).length + 1 := by
+      have : ∀ (l : TJar), l.length ≤ (tailEncT l).length := by
+        intro l
+        induction l with
+        | nil => simp
+        | cons q qs ihq => obtain ⟨a, b, c, d⟩ := q; simp only [tailEncT, List.length_append, List.length_cons]; omega
+      have := this rest
+      simp only [List.length_append, List.length_cons]; omega
+    rw [pairs_tailT fields rest _ _ hok' hseen' hlen]
+    simp [asFieldT]
+
+/-- and `serde_cookie::from_str` delivers them in the declared fields -/
+theorem fromStr_typed_jar (fields : List (Bytes × Ty × Bool)) (jar : TJar) (hok : TJarOK fields jar) :
+    fromStr fields (encodeJarT jar) = (match fillMissing fields (jar.map asFieldT) with | some fs => .ok fs | none => .err) := by
+  unfold fromStr
+  rw [typed_jar_roundtrip fields jar hok]
+  cases h : fillMissing fields (jar.map asFieldT) <;> simp [h]
+
+-- non-vacuity: struct { n: u8, ok: bool, tag: Option<String>, d: i16 } with n=7, ok=true, tag=Some("a;"), d=-3
+private def fldsT : List (Bytes × Ty × Bool) := [([110], .uint 8, false), ([111, 107], .bool, false), ([116, 97, 103], .option .string, false), ([100], .sint 16, false)]
+private def jarT : TJar := [([110], .uint 8, .int 7, [55]), ([116, 97, 103], .option .string, .some (.str [97, 59]), [97, 37, 51, 66]),
+  ([111, 107], .bool, .bool true, Serde.TRUE), ([100], .sint 16, .int (-3), [45, 51])]
+example : TJarOK fldsT jarT := by
+  refine ⟨?_, ?_, ?_, by decide⟩
+  · intro c h; simp [jarT] at h; rcases h with rfl | rfl | rfl | rfl <;> decide
+  · intro c h; simp [jarT] at h
+    rcases h with rfl | rfl | rfl | rfl
+    · exact ⟨Enc.uint 8 7 (by decide) (by decide), by decide⟩
+    · exact ⟨Enc.some _ _ _ (Enc.string [97, 59] (by decide)) (by decide), by decide⟩
+    · exact ⟨Enc.btrue, by decide⟩
+    · exact ⟨Enc.sint 16 (-3) (by decide) (by decide), by decide⟩
+  · intro c h; simp [jarT] at h; rcases h with rfl | rfl | rfl | rfl <;> rfl
+
 end Ohkami.Cookie
